@@ -54,6 +54,18 @@ pub mod c19_pairing;
 #[cfg(kani)]
 pub mod playback;
 
+/// Prints the decoded inputs of a harness - only in the native replay of a counterexample
+/// (`cargo kani playback` builds with cfg(test)); compiled to nothing for the solver.
+#[macro_export]
+macro_rules! show {
+    ($($t:tt)*) => {
+        #[cfg(test)]
+        {
+            std::println!($($t)*);
+        }
+    };
+}
+
 /// Expands `$m!(short_name, LayoutType)` for each of the ten shipped layouts.
 #[macro_export]
 macro_rules! for_layouts {
